@@ -349,6 +349,9 @@ def run(ctx) -> None:
     r6_binding_table(ctx)
     r7_plumbing(ctx, m, me)
     r8_ext_arms(ctx, m, me)
+    from .. import lints
+    lints.arm(ctx)
+
 
 
 # ---------------------------------------------------------------------------------------
